@@ -25,11 +25,14 @@ TIERS = {
               # the same constructs after a long flat statement list: what precedes a construct must not change its cost
               dict(Sizes={4, 8, 16}, WrapUse={1, 6, 11}, ChainUse=set(), BreakUse={1}, Pairs=False, ChainScale=1, PatternWraps=set(), BlockUse={1, 7, 9, 11}, Prefixes={3000}),
               # deep nesting at the interpreter's default recursion limit, through parse_string (entry = "default_limit")
-              dict(Sizes={50, 100, 200, 400}, WrapUse={1, 2, 4}, ChainUse=set(), BreakUse={1}, Pairs=False, ChainScale=1, PatternWraps=set(), BlockUse={1}, Prefixes={0}, _reclimit=1000)],
+              dict(Sizes={50, 100, 200, 400}, WrapUse={1, 2, 4}, ChainUse=set(), BreakUse={1}, Pairs=False, ChainScale=1, PatternWraps=set(), BlockUse={1}, Prefixes={0}, _reclimit=1000),
+              # the same valid constructs with verbose tracing on (the option must not change how much is parsed)
+              dict(Sizes={2, 4, 8}, WrapUse={1, 2, 6, 10, 20}, ChainUse={1, 6}, BreakUse={1}, Pairs=False, ChainScale=2, PatternWraps=set(), BlockUse={1}, Prefixes={0}, _verbose=True)],
     "thorough": [dict(Sizes={4, 8, 16, 32}, WrapUse=ALLW, ChainUse=ALLC, BreakUse={1, 2, 3, 4, 5, 6}, Pairs=False, ChainScale=8, PatternWraps={1, 2, 4, 6}, BlockUse=ALLB, Prefixes={0}),
                  dict(Sizes={3, 6, 12}, WrapUse={1, 2, 4, 5, 6, 7, 8, 9, 10, 11, 12, 15, 20, 25, 28}, ChainUse=set(), BreakUse={1, 3, 5, 6}, Pairs=True, ChainScale=1, PatternWraps={1, 2, 4, 6}, **NOB),
                  dict(Sizes={4, 8, 16}, WrapUse={1, 2, 4, 6, 8, 11}, ChainUse=set(), BreakUse={1, 5}, Pairs=False, ChainScale=1, PatternWraps=set(), BlockUse=ALLB, Prefixes={3000, 6000}),
-                 dict(Sizes={50, 100, 200, 400}, WrapUse={1, 2, 3, 4, 5, 6, 7, 11}, ChainUse=set(), BreakUse={1, 6}, Pairs=False, ChainScale=1, PatternWraps=set(), BlockUse={1, 7}, Prefixes={0}, _reclimit=1000)],
+                 dict(Sizes={50, 100, 200, 400}, WrapUse={1, 2, 3, 4, 5, 6, 7, 11}, ChainUse=set(), BreakUse={1, 6}, Pairs=False, ChainScale=1, PatternWraps=set(), BlockUse={1, 7}, Prefixes={0}, _reclimit=1000),
+                 dict(Sizes={2, 4, 8, 16}, WrapUse=ALLW, ChainUse={1, 5, 6, 11}, BreakUse={1}, Pairs=False, ChainScale=2, PatternWraps={1, 2}, BlockUse=ALLB, Prefixes={0}, _verbose=True)],
 }
 
 
@@ -39,15 +42,16 @@ def check(run: Run) -> None:
     for i, c in enumerate(TIERS[run.tier]):
         c = dict(c)
         reclimit = c.pop("_reclimit", None)
+        verbose = c.pop("_verbose", False)
         f = os.path.join(run.dir, f"work{i}.ndjson")
         run_tlc(run, "Work", "INIT Init\nNEXT Next\nINVARIANT Export\nCHECK_DEADLOCK FALSE\n", env={"OUT": f}, name=f"work{i}", consts=c)
         for r in read_export(f):
-            k = (r["k"], ("default-recursion-limit:" if reclimit else "") + r["fam"], r["br"])
+            k = (r["k"], ("default-recursion-limit:" if reclimit else "verbose:" if verbose else "") + r["fam"], r["br"])
             fam[k][r["n"]] = r["src"]
-            limit_of[k] = reclimit
+            limit_of[k] = (reclimit, verbose)
         os.remove(f)
     keys = sorted(fam)
-    cases = [{"srcs": [fam[k][n] for n in sorted(fam[k])], "reclimit": limit_of[k]} for k in keys]
+    cases = [{"srcs": [fam[k][n] for n in sorted(fam[k])], "reclimit": limit_of[k][0], "verbose": limit_of[k][1]} for k in keys]
     res = run_ops("c18", cases, limit=25.0, batch=4)
     traces = []
     for i, (k, r) in enumerate(zip(keys, res)):
